@@ -16,7 +16,8 @@ import UgoVerif.Proofs.Builtins
           (`make`, `Builder.Grow`; on 64-bit Go the limit is 2^48 bytes).  Whether the
           machine has that much memory is outside every model: an out-of-memory
           condition is a fatal error of the Go runtime, not a panic.
-    `hS`  strings that exist are shorter than `B`, with `2*B + 2^32 ≤ makeLimit`.
+    `hS`  strings that exist are shorter than `B`, with `2*(B+1) + 2^32 ≤ makeLimit`;
+    `hM`  `makeLimit ≤ MaxInt64`.
 -/
 namespace UgoVerif.Props.C19
 open UgoVerif UgoVerif.Go UgoVerif.Gen.Adapters UgoVerif.Model.Builtins UgoVerif.Proofs.Builtins
@@ -338,6 +339,61 @@ theorem errorNew_no_panic (E : Env) (args : List Val) : (errorNewB E args).isPan
   | [] => rfl
   | [_] => rfl
   | _ :: _ :: _ => rfl
+
+set_option maxRecDepth 100000 in
+/-- strings `PadLeft` / `PadRight`: the argument indices, the division by `len(padWith)`,
+    `Builder.Grow(padLen)`, `strings.Repeat(padWith, r)` and the slice `[:diff]` are all
+    inside their domains — `padLen ≤ len(s)` is tested before `padLen - len(s)` is formed, so the
+    subtraction cannot wrap, and `padLen` is bounded by the size limit. -/
+theorem pad_no_panic (E : Env) (B : Nat) (hS : ∀ v, (E.toStr v).length ≤ B)
+    (hL : 2 * (B + 1) + 4294967296 ≤ E.makeLimit) (hM : (E.makeLimit : Int) ≤ maxInt)
+    (c : Call) (left : Bool) : (pad E c left).isPanic = false := by
+  unfold pad
+  simp only
+  split
+  · rfl
+  · rename_i hsz
+    obtain ⟨a0, h0⟩ := get_lt (c := c) (n := 0) (by omega)
+    obtain ⟨a1, h1⟩ := get_lt (c := c) (n := 1) (by omega)
+    rw [h0]; simp only; rw [h1]; simp only
+    cases hi : E.toGoInt a1 with
+    | none => rfl
+    | some padLen =>
+      simp only
+      split
+      · rfl
+      · rename_i hbig
+        split
+        · rfl
+        · rename_i hle
+          have hp : padLen ≤ 2147483647 := by unfold maxAllocLen at hbig; omega
+          have hdw : wrap64 (padLen - ((E.toStr a0).length : Int)) = padLen - ((E.toStr a0).length : Int) :=
+            wrap64_id (by unfold minInt; omega) (by unfold maxInt; omega)
+          generalize hg : wrap64 (padLen - ((E.toStr a0).length : Int)) = diff
+          have hdv : diff = padLen - ((E.toStr a0).length : Int) := by rw [← hg]; exact hdw
+          split
+          · obtain ⟨a2, h2⟩ := get_lt (c := c) (n := 2) (by omega)
+            rw [h2]; simp only
+            split
+            · rfl
+            · rename_i hne
+              have q2 : 0 ≤ padLen := by omega
+              have q3 : 0 < diff := by omega
+              have q4 : diff ≤ 2147483647 := by omega
+              have q5 : 0 < (E.toStr a2).length := by omega
+              exact padCont_no_panic E (B + 1) hL hM (E.toStr a0) padLen diff left (E.toStr a2) q2 hp q3 q4 q5
+                (Nat.le_succ_of_le (hS a2))
+          · have q2 : 0 ≤ padLen := by omega
+            have q3 : 0 < diff := by omega
+            have q4 : diff ≤ 2147483647 := by omega
+            have q5 : 0 < ([32] : Bytes).length := Nat.zero_lt_one
+            have q6 : ([32] : Bytes).length ≤ B + 1 := Nat.le_add_left 1 B
+            exact padCont_no_panic E (B + 1) hL hM (E.toStr a0) padLen diff left [32] q2 hp q3 q4 q5 q6
+
+-- non-vacuity of the hypotheses of `pad_no_panic`: strings up to 2^40 bytes, Go's 2^48 limit
+example : ∃ (E : Env) (B : Nat), (∀ v, (E.toStr v).length ≤ B) ∧ 2 * (B + 1) + 4294967296 ≤ E.makeLimit ∧ (E.makeLimit : Int) ≤ maxInt :=
+  ⟨⟨fun _ => none, by simp, fun _ => [97], 281474976710656, fun _ => false, fun _ => false, fun _ => false, fun _ _ => .undefined⟩,
+   1099511627776, by simp, by decide, by decide⟩
 
 /-- strings `Replace`, `Split`, `SplitAfter` -/
 theorem optIntTail_no_panic (E : Env) (c : Call) (lo : Nat) (n p : String) :
